@@ -14,7 +14,8 @@ LEVEL_TEXT = ("static: decides the lock discipline race freedom rests on, for al
               "cache state happens with the channel lock held, except inside construction/tear-down and for fields never written after construction; "
               "(ORDER) the channel lock is never taken and no channel code runs while the event thread's mutex is held; (COND) waiting for an empty queue "
               "re-tests its predicate under the lock and every emptier notifies under the lock; (TEARDOWN) destroy marks down, stops the watcher, joins the "
-              "reload thread, then tears down. (WAKE) a request that becomes the earliest to time out wakes the event thread. Does not decide other lost wake-ups, fairness or timing.")
+              "reload thread, then tears down. (WAKE) a request that becomes the earliest to time out wakes the event thread. Does not decide other lost wake-ups, fairness or timing."
+              " Also decides that queued event updates are merged only into live requests for the same handle, never into a queued removal.")
 LEVEL_NOTE = ("trusts clang CFG + extractor; indirect calls resolved by slot (assignments / initialisers / parameter-to-field forwarding) and per container "
               "instance; ares_init_options (unpublished object) and ares_destroy (exclusive by contract) are treated as holding the lock")
 DESIGN_REF = "DESIGN.md §6/C11"
